@@ -77,9 +77,8 @@ def solver_eigen_scipy(**kwargs) -> EigenSolver:
     params.update(kwargs)
 
     def solver(K, M, **solve_time_kwargs):
-        params.update(solve_time_kwargs)
         from scipy.sparse.linalg import eigs
-        return eigs(K, M=M, **params)
+        return eigs(K, M=M, **{**params, **solve_time_kwargs})
 
     return solver
 
@@ -101,9 +100,8 @@ def solver_eigen_scipy_sym(**kwargs) -> EigenSolver:
     params.update(kwargs)
 
     def solver(K, M, **solve_time_kwargs):
-        params.update(solve_time_kwargs)
         from scipy.sparse.linalg import eigsh
-        return eigsh(K, M=M, **params)
+        return eigsh(K, M=M, **{**params, **solve_time_kwargs})
 
     return solver
 
@@ -112,8 +110,7 @@ def solver_direct_scipy(**kwargs) -> LinearSolver:
     """The default linear solver of SciPy."""
 
     def solver(A, b, **solve_time_kwargs):
-        kwargs.update(solve_time_kwargs)
-        return spl.spsolve(A, b, **kwargs)
+        return spl.spsolve(A, b, **{**kwargs, **solve_time_kwargs})
 
     return solver
 
@@ -147,16 +144,16 @@ def solver_iter_krylov(krylov: Optional[LinearSolver] = spl.cg,
             print(np.linalg.norm(x))
 
     def solver(A, b, **solve_time_kwargs):
-        kwargs.update(solve_time_kwargs)
-        if 'M' not in kwargs:
-            kwargs['M'] = build_pc_diag(A)
-        sol, info = krylov(A, b, **{'callback': callback, **kwargs})
+        params = {**kwargs, **solve_time_kwargs}
+        if 'M' not in params:
+            params['M'] = build_pc_diag(A)
+        sol, info = krylov(A, b, **{'callback': callback, **params})
         if info > 0:
             logger.warning("Iterative solver did not converge.")
         elif info == 0 and verbose:
             print(f"{krylov.__name__} converged to "
-                  + f"tol={kwargs.get('tol', 'default')} and "
-                  + f"atol={kwargs.get('atol', 'default')}")
+                  + f"tol={params.get('tol', 'default')} and "
+                  + f"atol={params.get('atol', 'default')}")
         return sol
 
     return solver
@@ -171,9 +168,9 @@ def solver_iter_cg(**kwargs):
     """Pure Python conjugate gradient solver (for old scipy versions)."""
 
     def solver(A, b, **solve_time_kwargs):
-        kwargs.update(solve_time_kwargs)
-        maxiters = kwargs['maxiters'] if 'maxiters' in kwargs else 500
-        tol = kwargs['tol'] if 'tol' in kwargs else 1e-10
+        params = {**kwargs, **solve_time_kwargs}
+        maxiters = params['maxiters'] if 'maxiters' in params else 500
+        tol = params['tol'] if 'tol' in params else 1e-10
         x = b
         r = b - A.dot(x)
         p = r
